@@ -50,7 +50,7 @@ def oracle (cx : Ctx) (prev : RObs) (line : String) (robs : Option RObs) : Strin
       let specific : List String :=
         match specStep cx line r <|> specRootStep cx line with
         | some e => checkSExp e r
-        | none => []
+        | none => (specSerde cx line r parseJson).getD []
       match genericChecks cx prev line r ++ specific with
       | [] => "ok"
       | fs => "FAIL " ++ ",".intercalate fs
